@@ -151,7 +151,21 @@ func wordRuns(t Tree, into map[string]bool) {
 // RunCase performs the load and the lookups with the real library and writes the case.
 // templates: also record the state of every environment variable a string of the document
 // could name (so that the model sees the environment the library saw).
-var flagSerial int
+var (
+	flagSerial    int
+	usedFlagNames = map[string]bool{}
+)
+
+// NewFlagName returns a flag / variable name no Builder of this process has registered yet.
+func NewFlagName(base string) string {
+	for {
+		flagSerial++
+		n := fmt.Sprintf("%s_f%d", base, flagSerial)
+		if !usedFlagNames[n] {
+			return n
+		}
+	}
+}
 
 func RunCase(out *gal.Out, kind string, in Input, orc *Oracle, extraKeys []string, templates bool) {
 	var text []byte
@@ -174,16 +188,21 @@ func RunCase(out *gal.Out, kind string, in Input, orc *Oracle, extraKeys []strin
 		env[k] = v
 	}
 	for i := range dims {
-		if dims[i].Flag != nil {
-			flagSerial++
-			old := dims[i].Name
-			dims[i].Name = fmt.Sprintf("%s_f%d", strings.SplitN(old, "_f", 2)[0], flagSerial)
-			// environment variables that named this dimension follow the new name
-			for _, f := range []func(string) string{func(s string) string { return s }, strings.ToUpper, strings.ToLower} {
-				if v, ok := env[f(old)]; ok {
-					delete(env, f(old))
-					env[f(dims[i].Name)] = v
-				}
+		if dims[i].Flag == nil {
+			continue
+		}
+		old := dims[i].Name
+		if !usedFlagNames[old] { // e.g. a name the generator made unique (NewFlagName)
+			usedFlagNames[old] = true
+			continue
+		}
+		dims[i].Name = NewFlagName(strings.SplitN(old, "_f", 2)[0])
+		usedFlagNames[dims[i].Name] = true
+		// environment variables that named this dimension follow the new name
+		for _, f := range []func(string) string{func(s string) string { return s }, strings.ToUpper, strings.ToLower} {
+			if v, ok := env[f(old)]; ok {
+				delete(env, f(old))
+				env[f(dims[i].Name)] = v
 			}
 		}
 	}
